@@ -10,6 +10,7 @@ import Mappy.Model.Versioning
 import Mappy.Gen.Schemas
 import Mappy.Model.Transformer
 import Mappy.Model.Validator
+import Mappy.Model.Comments
 open Lean Mappy Mappy.Wire
 
 namespace Mappy.Driver
@@ -226,6 +227,29 @@ def messagesOp (req : Json) : Except String Json := do
       | some (l, c) => Json.mkObj [("key", .str (l2s m.key)), ("line", ofJ l), ("column", ofJ c)]
   pure (.arr (paths.map one).toArray)
 
+/-! ### comment assignment -/
+partial def decodeCT (j : Json) : Except String Comments.CT := do
+  match j.getObjVal? "t" with
+  | .ok _ => pure .tok
+  | _ =>
+    let data ← getStr j "n"
+    let optNat (k : String) : Option Nat := match j.getObjVal? k with
+      | .ok (.num n) => if n.exponent = 0 && n.mantissa ≥ 0 then some n.mantissa.toNat else none
+      | _ => none
+    let kids ← (← getArr j "c").mapM decodeCT
+    pure (.node data (optNat "l") (optNat "e") none kids)
+
+def assignOp (req : Json) : Except String Json := do
+  let cs ← (← getArr req "comments").mapM fun p =>
+    match p with
+    | .arr #[.num n, .str s] => pure (n.mantissa.toNat, s2l s)
+    | _ => throw "bad comment"
+  let kids ← (← getArr req "kids").mapM decodeCT
+  let (kids', rest) := Comments.assignKids (Comments.buildDict cs) kids
+  let att := Comments.attachedL kids'
+  pure (Json.mkObj [("attached", .arr (att.map fun l => Json.arr (l.map fun s => Json.str (l2s s)).toArray).toArray),
+                    ("rest", .arr (rest.map fun c => Json.str (l2s c.2)).toArray)])
+
 def handle (op : String) (req : Json) : Except String Json := do
   match op with
   | "echo" => pure (ofJ (← getJ req "v"))
@@ -249,6 +273,7 @@ def handle (op : String) (req : Json) : Except String Json := do
   | "vrun" => vrunOp req
   | "transform" => transformOp req
   | "messages" => messagesOp req
+  | "assign" => assignOp req
   | "lowercase" => pure (ofJ (Validator.convertLowercase (← getJ req "v")))
   | "lower" => pure (Json.str (l2s (lower (← getStr req "s"))))
   | _ => throw s!"unknown op {op}"
